@@ -971,6 +971,140 @@ fn under_item<R>(parent: u64, call: u64, i: usize, f: impl FnOnce() -> R) -> R {
     r
 }
 
+/// The pool's threads. An execution has `pool` slots; a task runs items only while it is bound to
+/// a slot, so at most `pool` items are in progress at any time, `rayon::current_thread_index()`
+/// is the slot, and the slot is the thread identity whose thread-locals the task sees. A worker
+/// that blocks in a nested parallel call keeps its slot and lends it to one inner worker. A
+/// caller that is not a pool thread waits until at least one slot is free.
+pub(crate) mod slots {
+    use std::cell::RefCell;
+    use std::collections::HashMap;
+    use std::sync::Arc;
+
+    struct Table {
+        free: shuttle::sync::Mutex<Vec<bool>>,
+        freed: shuttle::sync::Condvar,
+    }
+
+    thread_local! {
+        static TABLE: RefCell<(u64, Option<Arc<Table>>)> = RefCell::new((0, None));
+        static BOUND: RefCell<(u64, HashMap<usize, Vec<usize>>)> = RefCell::new((0, HashMap::new()));
+    }
+
+    fn table(pool: usize) -> Arc<Table> {
+        let epoch = simctx::epoch();
+        TABLE.with(|t| {
+            let mut t = t.borrow_mut();
+            if t.0 != epoch || t.1.is_none() {
+                if let Some(old) = t.1.take() {
+                    // a task of an aborted execution may still be parked on it
+                    std::mem::forget(old);
+                }
+                t.0 = epoch;
+                t.1 = Some(Arc::new(Table { free: shuttle::sync::Mutex::new(vec![true; pool.max(1)]), freed: shuttle::sync::Condvar::new() }));
+            }
+            t.1.as_ref().unwrap().clone()
+        })
+    }
+
+    /// Slot the task is bound to (innermost binding).
+    pub fn of(task: usize) -> Option<usize> {
+        if !simctx::active() {
+            return None;
+        }
+        let epoch = simctx::epoch();
+        BOUND.with(|b| {
+            let b = b.borrow();
+            if b.0 != epoch {
+                return None;
+            }
+            b.1.get(&task).and_then(|v| v.last().copied())
+        })
+    }
+
+    pub struct Bound(usize, u64);
+    pub fn bind(task: usize, slot: usize) -> Bound {
+        let epoch = simctx::epoch();
+        BOUND.with(|b| {
+            let mut b = b.borrow_mut();
+            if b.0 != epoch {
+                b.0 = epoch;
+                b.1.clear();
+            }
+            b.1.entry(task).or_default().push(slot);
+        });
+        Bound(task, epoch)
+    }
+    impl Drop for Bound {
+        fn drop(&mut self) {
+            let _ = BOUND.try_with(|b| {
+                if let Ok(mut b) = b.try_borrow_mut() {
+                    if b.0 == self.1 {
+                        if let Some(v) = b.1.get_mut(&self.0) {
+                            v.pop();
+                        }
+                    }
+                }
+            });
+        }
+    }
+
+    /// Take up to `max` free slots; `at_least_one` waits until one is free. How many of the free
+    /// ones are taken, and which, is the stubs' stream's decision (the other threads of the pool
+    /// are busy elsewhere or slow to pick up work).
+    pub fn take(pool: usize, max: usize, at_least_one: bool) -> Vec<usize> {
+        if max == 0 {
+            return Vec::new();
+        }
+        let t = table(pool);
+        let mut free = t.free.lock().unwrap();
+        loop {
+            let avail: Vec<usize> = free.iter().enumerate().filter(|(_, f)| **f).map(|(i, _)| i).collect();
+            if avail.is_empty() {
+                if !at_least_one {
+                    return Vec::new();
+                }
+                free = t.freed.wait(free).unwrap();
+                continue;
+            }
+            let most = avail.len().min(max);
+            let k = simctx::with(|c| if c.aux.unit() < 0.6 { most } else { 1 + c.aux.below(most) });
+            let k = if at_least_one { k.max(1) } else { k };
+            let mut pick = avail;
+            let mut out = Vec::with_capacity(k);
+            for _ in 0..k {
+                let i = simctx::with(|c| c.aux.below(pick.len()));
+                out.push(pick.swap_remove(i));
+            }
+            for s in &out {
+                free[*s] = false;
+            }
+            return out;
+        }
+    }
+
+    pub struct Release(pub usize, pub usize);
+    impl Drop for Release {
+        fn drop(&mut self) {
+            if std::thread::panicking() {
+                return;
+            }
+            let t = table(self.0);
+            let mut free = t.free.lock().unwrap();
+            if self.1 < free.len() {
+                free[self.1] = true;
+            }
+            drop(free);
+            t.freed.notify_all();
+        }
+    }
+
+    /// Thread identity (for thread-locals) of a pool slot.
+    pub fn identity(slot: usize) -> u64 {
+        (1u64 << 20) + slot as u64
+    }
+}
+
 /// Registry of "run one more item of the parallel iterator I am a worker of", per task: what a
 /// pool thread can pick up while it is blocked on nested work.
 mod steal {
@@ -1094,11 +1228,13 @@ pub(crate) fn drive<P: ParallelIterator>(p: &P, short: Short) -> Vec<(usize, Vec
             (parent, *e - 1)
         })
     };
-    let mut workers = if !active || (depth > 0 && nested_inline) { 1 } else { pool.min(n) };
-    if workers > 1 {
+    let caller = me();
+    let caller_slot = slots::of(caller);
+    let mut wanted = if !active || (depth > 0 && nested_inline) { 1 } else { pool.min(n) };
+    if wanted > 1 {
         let ok = simctx::with(|c| {
-            if c.spawn_budget >= workers as u64 {
-                c.spawn_budget -= workers as u64;
+            if c.spawn_budget >= wanted as u64 {
+                c.spawn_budget -= wanted as u64;
                 true
             } else {
                 c.n_budget_inline += 1;
@@ -1106,14 +1242,20 @@ pub(crate) fn drive<P: ParallelIterator>(p: &P, short: Short) -> Vec<(usize, Vec
             }
         });
         if !ok {
-            workers = 1;
+            wanted = 1;
         }
     }
+    // the pool threads that serve this call: the caller's own (if it is one) plus free ones
+    let own = if caller_slot.is_some() { 1 } else { 0 };
+    let granted: Vec<usize> = if active && n > 0 { slots::take(pool, wanted.max(1) - own.min(wanted.max(1)), own == 0) } else { Vec::new() };
+    let workers = if active { (own + granted.len()).max(1) } else { 1 };
     simctx::log(simctx::EV_PAR, n as u64, workers as u64);
 
     if workers <= 1 {
         // In-order, on the calling task. Still a scheduling point per item inside a run, so that
-        // concurrent tasks (other strategies, a canceller) interleave with it.
+        // concurrent tasks (other strategies, a canceller) interleave with it. A caller that is
+        // not a pool thread stands in for the pool thread it was granted.
+        let _bound = granted.first().map(|s| (slots::bind(caller, *s), slots::Release(pool, *s)));
         let mut out = Vec::with_capacity(n);
         for i in 0..n {
             if active {
@@ -1188,9 +1330,7 @@ pub(crate) fn drive<P: ParallelIterator>(p: &P, short: Short) -> Vec<(usize, Vec
     // work of the pool on top of its stack, in particular further items of the enclosing
     // iterator (work stealing while blocked; the source of "lock held across a parallel call"
     // deadlocks and of re-entrancy into thread-local state).
-    let caller = me();
     let outer = steal::top(caller);
-    let caller_identity = if outer.is_some() { Some(simctx::tls::current_identity()) } else { None };
 
     // The outer items are run BEFORE the inner workers are spawned: the legal schedule in which
     // the inner jobs have been taken by threads that have not got round to them yet. (Running
@@ -1217,12 +1357,12 @@ pub(crate) fn drive<P: ParallelIterator>(p: &P, short: Short) -> Vec<(usize, Vec
     shuttle::thread::scope(|s| {
         for w in 0..workers {
             let step = &step;
+            // worker 0 runs on the caller's own pool thread if the caller is one
+            let (slot, lent) = if w < own { (caller_slot.unwrap(), true) } else { (granted[w - own], false) };
             s.spawn(move || {
-                if w == 0 {
-                    if let Some(id) = caller_identity {
-                        simctx::tls::adopt(id);
-                    }
-                }
+                let _bound = slots::bind(me(), slot);
+                let _release = if lent { None } else { Some(slots::Release(pool, slot)) };
+                simctx::tls::adopt(slots::identity(slot));
                 let f = move || step(w);
                 let _reg = steal::Registered::new(me(), &f);
                 while f() {}
